@@ -68,9 +68,6 @@ func TestVerif_C17_gateway(t *testing.T) {
 	verifkit.RapidSetup(400, 10000)
 	rapid.Check(t, func(rt *rapid.T) {
 		c := c17GenCase().Draw(rt, "case")
-		for name := range c17LastExcluded {
-			col.Excluded(name)
-		}
 		labels, nt := c17Labels(c)
 		col.Case(c, nt, labels...)
 		st := map[string]int{}
